@@ -35,6 +35,8 @@ type Model struct {
 	VTA     *callgraph.Graph
 	CG      *callgraph.Graph // the graph rules use (VTA unless -cha)
 
+	guardAcc []guardVerdict // R-GUARDED: per-access verdicts, grouped before being reported
+
 	Schema *Schema
 	Sites  []*SQLSite
 
